@@ -21,6 +21,8 @@ type guard struct {
 	cond    ssa.Value
 	pos     token.Pos
 	passBlk *ssa.BasicBlock // successor taken when the check passes
+	// notCovering: lifted from a helper and known not to gate every accepting exit
+	notCovering bool
 }
 
 func (g guard) key() string { return g.decider + "(" + strings.Join(g.fields, ",") + ")" }
@@ -59,6 +61,26 @@ func blockRejectsFrom(pred, b *ssa.BasicBlock) bool {
 func returnRejects(x *ssa.Return, from *ssa.BasicBlock) bool {
 	if len(x.Results) == 0 {
 		return false
+	}
+	// `return r.AbortRound(err, culprits...), nil`: a protocol-level rejection
+	if len(x.Results) == 2 {
+		first := x.Results[0]
+		if ph, ok := first.(*ssa.Phi); ok && ph.Block() == x.Block() {
+			for i, p := range x.Block().Preds {
+				if p == from {
+					first = ph.Edges[i]
+				}
+			}
+		}
+		if call, ok := stripConv(first).(*ssa.Call); ok {
+			if o := calleeObj(call); o != nil && o.Name() == "AbortRound" {
+				return true
+			}
+		}
+		// diversion into an identifiable-abort round (`return &abort1{...}, nil`)
+		if n := namedOf(stripConv(first).Type()); n != nil && strings.HasPrefix(n.Obj().Name(), "abort") {
+			return true
+		}
 	}
 	last := x.Results[len(x.Results)-1]
 	// through a phi: pick the edge coming from `from` if determinable
@@ -193,7 +215,7 @@ func paramFields(fn *ssa.Function, v ssa.Value) []string {
 	}
 	var rootParam func(x ssa.Value, d int) (string, bool)
 	rootParam = func(x ssa.Value, d int) (string, bool) {
-		if d > 10 {
+		if d > 40 {
 			return "", false
 		}
 		if n, ok := isParam(x); ok {
@@ -207,6 +229,28 @@ func paramFields(fn *ssa.Function, v ssa.Value) []string {
 		case *ssa.Alloc:
 			if sv := singleStore(y); sv != nil {
 				return rootParam(sv, d+1)
+			}
+		case *ssa.TypeAssert:
+			// msg.Content.(*T): the decoded message body
+			if isMessageContent(y.X) {
+				return "body", true
+			}
+		case *ssa.Extract:
+			if ta, ok := y.Tuple.(*ssa.TypeAssert); ok && y.Index == 0 && isMessageContent(ta.X) {
+				return "body", true
+			}
+		case *ssa.Phi:
+			// the same root on every edge (e.g. body from both arms of a comma-ok assertion)
+			lbl := ""
+			for _, e := range y.Edges {
+				n, ok := rootParam(e, d+1)
+				if !ok || (lbl != "" && n != lbl) {
+					return "", false
+				}
+				lbl = n
+			}
+			if lbl != "" {
+				return lbl, true
 			}
 		case *ssa.FieldAddr:
 			// embedded struct pointer: p.Commitment.S -> treat as p.S
@@ -232,6 +276,14 @@ func paramFields(fn *ssa.Function, v ssa.Value) []string {
 			return
 		}
 		seen[x] = true
+		if _, isP := x.(*ssa.Parameter); !isP {
+			if _, isF := x.(*ssa.FreeVar); !isF {
+				if n, ok := rootParam(x, 0); ok && n != "" {
+					set[n] = true
+					return
+				}
+			}
+		}
 		switch y := x.(type) {
 		case *ssa.FieldAddr:
 			if n, ok := rootParam(y.X, 0); ok {
@@ -249,11 +301,27 @@ func paramFields(fn *ssa.Function, v ssa.Value) []string {
 					return
 				}
 			}
+		case *ssa.Lookup:
+			// table[key] with both sides simple: keep the pairing ("recv.K[Message.To]")
+			if b, i := paramFields(fn, y.X), paramFields(fn, y.Index); len(b) == 1 && len(i) == 1 && !strings.HasSuffix(b[0], "()") && d < 50 {
+				set[b[0]+"["+i[0]+"]"] = true
+				return
+			}
 		case *ssa.Parameter, *ssa.FreeVar:
 			if n, ok := isParam(x); ok && n != "" {
 				set[n] = true
 			}
 			return
+		case *ssa.Call:
+			if cal := y.Call.StaticCallee(); cal != nil && cal.Signature.Recv() != nil && len(y.Call.Args) > 0 && cal.Pkg != nil && strings.HasPrefix(cal.Pkg.Pkg.Path(), modPath) {
+				if n, ok := rootParam(y.Call.Args[0], 0); ok && n != "" {
+					set[n+"."+cal.Name()+"()"] = true
+					for _, a := range y.Call.Args[1:] {
+						rec(a, d+1)
+					}
+					return
+				}
+			}
 		}
 		if a, ok := x.(*ssa.Alloc); ok {
 			// local aggregate (e.g. the backing array of variadic arguments): what was stored into it
@@ -301,10 +369,26 @@ func paramFields(fn *ssa.Function, v ssa.Value) []string {
 				}
 			}
 		}
-		// objects mutated in place by pointer-receiver methods: include the arguments of calls on the same object
-		if call, ok := x.(*ssa.Call); ok && len(call.Call.Args) > 0 {
+		// objects mutated in place through their methods (acc.Add(y), rid.XOR(z)): a fresh object
+		// depends on the arguments of the calls it is the receiver of
+		if call, ok := x.(*ssa.Call); ok {
 			if refs := call.Referrers(); refs != nil {
-				_ = refs
+				for _, ref := range *refs {
+					ci, isCall := ref.(ssa.CallInstruction)
+					if !isCall {
+						continue
+					}
+					cc := ci.Common()
+					if cc.IsInvoke() && cc.Value == ssa.Value(call) {
+						for _, a := range cc.Args {
+							rec(a, d+1)
+						}
+					} else if !cc.IsInvoke() && len(cc.Args) > 1 && cc.Args[0] == ssa.Value(call) && cc.StaticCallee() != nil && cc.StaticCallee().Signature.Recv() != nil {
+						for _, a := range cc.Args[1:] {
+							rec(a, d+1)
+						}
+					}
+				}
 			}
 		}
 	}
@@ -336,13 +420,26 @@ func paramFields(fn *ssa.Function, v ssa.Value) []string {
 // rejectGuards lists the reject guards of fn (including a final `return <bool expr>`).
 func rejectGuards(fn *ssa.Function) []guard {
 	var out []guard
+	acc := acceptReturns(fn)
+	// noAccept: no accepting return is reachable from b (every continuation rejects)
+	noAccept := func(b *ssa.BasicBlock) bool {
+		if len(acc) == 0 {
+			return false
+		}
+		for _, a := range acc {
+			if blockReaches(b, a.Block()) {
+				return false
+			}
+		}
+		return true
+	}
 	for _, b := range fn.Blocks {
 		if len(b.Instrs) == 0 {
 			continue
 		}
 		switch x := b.Instrs[len(b.Instrs)-1].(type) {
 		case *ssa.If:
-			r0, r1 := blockRejectsFrom(b, b.Succs[0]), blockRejectsFrom(b, b.Succs[1])
+			r0, r1 := blockRejectsFrom(b, b.Succs[0]) || noAccept(b.Succs[0]), blockRejectsFrom(b, b.Succs[1]) || noAccept(b.Succs[1])
 			if r0 == r1 {
 				continue
 			}
@@ -399,6 +496,9 @@ func acceptReturns(fn *ssa.Function) []*ssa.Return {
 			out = append(out, r)
 			continue
 		}
+		if returnRejects(r, r.Block()) {
+			continue
+		}
 		last := r.Results[len(r.Results)-1]
 		if mi, ok := last.(*ssa.MakeInterface); ok {
 			if cb, isC := constBool(mi.X); isC && !cb {
@@ -428,6 +528,9 @@ func acceptReturns(fn *ssa.Function) []*ssa.Return {
 // guardCoversAccepts: the guard's branch dominates every accepting return, or sits in a loop
 // whose header dominates them (per-element checks).
 func guardCoversAccepts(g guard) bool {
+	if g.notCovering {
+		return false
+	}
 	if g.iff == nil {
 		return true
 	}
@@ -511,7 +614,157 @@ func shortType(t types.Type) string {
 			return "[]" + shortType(x.Elem())
 		case *types.Map:
 			return "map"
+		case *types.Chan:
+			return "chan"
+		case *types.Signature:
+			return "func"
 		}
 		return t.String()
 	}
+}
+
+// isMessageContent: v is the Content field of a round.Message parameter/value.
+func isMessageContent(v ssa.Value) bool {
+	var t types.Type
+	var fld int
+	switch x := v.(type) {
+	case *ssa.Field:
+		t, fld = x.X.Type(), x.Field
+	case *ssa.UnOp:
+		fa, ok := x.X.(*ssa.FieldAddr)
+		if !ok {
+			return false
+		}
+		t, fld = fa.X.Type(), fa.Field
+	default:
+		return false
+	}
+	fv := fieldVar(t, fld)
+	return fv != nil && fv.Name() == "Content" && shortType(t) == "Message"
+}
+
+// liftedGuards: the reject guards of fn plus, for every guard of fn that is decided by a call to a
+// helper of the same package (error/bool result), the helper's own reject guards translated to
+// fn's vocabulary (one level of inlining, depth <= 2). Extracting checks into a helper therefore
+// does not change the inventory.
+func liftedGuards(fn *ssa.Function, depth int) []guard {
+	base := rejectGuards(fn)
+	if depth >= 2 {
+		return base
+	}
+	out := append([]guard(nil), base...)
+	for _, G := range base {
+		call := condCall(G.cond)
+		if call == nil {
+			continue
+		}
+		g := call.Call.StaticCallee()
+		if g == nil || g == fn || g.Pkg == nil || fn.Pkg == nil || g.Pkg != fn.Pkg || len(g.Blocks) == 0 {
+			continue
+		}
+		// only helpers of the protocol itself (not methods of other data types such as proofs)
+		if g.Signature.Recv() != nil && fn.Signature.Recv() != nil && namedOf(g.Signature.Recv().Type()) != namedOf(fn.Signature.Recv().Type()) {
+			if !embeds(namedOf(fn.Signature.Recv().Type()), namedOf(g.Signature.Recv().Type())) {
+				continue
+			}
+		} else if g.Signature.Recv() != nil && fn.Signature.Recv() == nil {
+			continue
+		}
+		coverG := guardCoversAccepts(G)
+		for _, S := range liftedGuards(g, depth+1) {
+			var fields []string
+			set := map[string]bool{}
+			// translation of the helper's parameter labels into the caller's vocabulary
+			trans := map[string][]string{}
+			for i := range g.Params {
+				L := paramLabel(g, i)
+				if L == "" || L == "recv" || i >= len(call.Call.Args) {
+					continue
+				}
+				trans[L] = paramFields(fn, call.Call.Args[i])
+			}
+			var translate func(fl string) []string
+			translate = func(fl string) []string {
+				// composite "base[idx]..." : translate the pieces
+				if i := strings.IndexByte(fl, '['); i > 0 && strings.HasSuffix(fl, "]") {
+					depth, j := 0, -1
+					for k := i; k < len(fl); k++ {
+						if fl[k] == '[' {
+							depth++
+						} else if fl[k] == ']' {
+							depth--
+							if depth == 0 {
+								j = k
+								break
+							}
+						}
+					}
+					if j > 0 {
+						bs, is := translate(fl[:i]), translate(fl[i+1:j])
+						rest := fl[j+1:]
+						if len(bs) == 1 && len(is) == 1 {
+							return []string{bs[0] + "[" + is[0] + "]" + rest}
+						}
+						return append(bs, is...)
+					}
+				}
+				for L, cf := range trans {
+					if fl == L || strings.HasPrefix(fl, L+".") {
+						suffix := fl[len(L):]
+						if len(cf) == 1 && !strings.HasSuffix(cf[0], "()") {
+							return []string{cf[0] + suffix}
+						}
+						return cf
+					}
+				}
+				return []string{fl}
+			}
+			for _, fl := range S.fields {
+				for _, x := range translate(fl) {
+					set[x] = true
+				}
+			}
+			for k := range set {
+				fields = append(fields, k)
+			}
+			sort.Strings(fields)
+			lg := guard{fn: fn, iff: G.iff, ret: G.ret, decider: S.decider, fields: fields, cond: S.cond, pos: S.pos, passBlk: G.passBlk}
+			if !(coverG && guardCoversAccepts(S)) {
+				lg.decider = S.decider
+				lg.notCovering = true
+			}
+			out = append(out, lg)
+		}
+	}
+	return out
+}
+
+func embeds(outer, inner *types.Named) bool {
+	if outer == nil || inner == nil {
+		return false
+	}
+	seen := map[*types.Named]bool{}
+	var rec func(n *types.Named) bool
+	rec = func(n *types.Named) bool {
+		if n == inner {
+			return true
+		}
+		if seen[n] {
+			return false
+		}
+		seen[n] = true
+		st, ok := n.Underlying().(*types.Struct)
+		if !ok {
+			return false
+		}
+		for i := 0; i < st.NumFields(); i++ {
+			if st.Field(i).Embedded() {
+				if m := namedOf(st.Field(i).Type()); m != nil && rec(m) {
+					return true
+				}
+			}
+		}
+		return false
+	}
+	return rec(outer)
 }
